@@ -176,43 +176,67 @@ func opDec(kind string, data []byte) string {
 }
 
 // marshalKind parses the value spec afresh and encodes it.
-func marshalKind(kind, spec string) ([]byte, error) {
+// buildKind parses a value of the given kind and returns its encoder and a dump of its state
+func buildKind(kind, spec string) (func() ([]byte, error), func() string) {
 	p := &parser{s: spec}
 	switch kind {
 	case "s1":
 		m := p.sign1()
 		p.done()
-		return m.MarshalCBOR()
+		return m.MarshalCBOR, func() string { return dumpSign1(m) }
 	case "s1u":
 		m := p.sign1()
 		p.done()
-		return (*cose.UntaggedSign1Message)(m).MarshalCBOR()
+		return (*cose.UntaggedSign1Message)(m).MarshalCBOR, func() string { return dumpSign1(m) }
 	case "sm":
 		m := p.signMsg()
 		p.done()
-		return m.MarshalCBOR()
+		return m.MarshalCBOR, func() string { return dumpSignMsg(m) }
 	case "sig":
 		s := p.signature()
 		p.done()
-		return s.MarshalCBOR()
+		return s.MarshalCBOR, func() string { return dumpSignature(s) }
 	case "csig":
 		s := p.signature()
 		p.done()
-		return (*cose.Countersignature)(s).MarshalCBOR()
+		return (*cose.Countersignature)(s).MarshalCBOR, func() string { return dumpSignature(s) }
 	case "ph":
 		m := p.optMap()
 		p.done()
-		return cose.ProtectedHeader(m).MarshalCBOR()
+		return cose.ProtectedHeader(m).MarshalCBOR, func() string { return dumpOptMap(m) }
 	case "uh":
 		m := p.optMap()
 		p.done()
-		return cose.UnprotectedHeader(m).MarshalCBOR()
+		return cose.UnprotectedHeader(m).MarshalCBOR, func() string { return dumpOptMap(m) }
 	case "key":
 		k := p.key()
 		p.done()
-		return k.MarshalCBOR()
+		return k.MarshalCBOR, func() string { return dumpKey(k) }
 	}
 	panic("bad kind")
+}
+
+func marshalKind(kind, spec string) ([]byte, error) {
+	enc, _ := buildKind(kind, spec)
+	return enc()
+}
+
+// C18: encoding is read-only — the encoded value (including the byte slices it refers to, which
+// the harness allocates with spare capacity) is unchanged and a second encoding of the SAME
+// object gives the same bytes.
+func encReadOnly(kind, spec string) string {
+	enc, dump := buildKind(kind, spec)
+	before := dump()
+	b1, e1 := enc()
+	mid := dump()
+	b2, e2 := enc()
+	if before != mid || mid != dump() {
+		return " MUTATED"
+	}
+	if (e1 == nil) != (e2 == nil) || !bytes.Equal(b1, b2) {
+		return " MUTATED(second encoding of the same object differs)"
+	}
+	return ""
 }
 
 const encRepeats = 6
@@ -230,11 +254,12 @@ func opEnc(kind, spec string) string {
 			return "nondet " + hx(first) + " " + hx(b)
 		}
 	}
+	ro := encReadOnly(kind, spec)
 	if firstErr != nil {
-		return "err"
+		return "err" + ro
 	}
 	// C08: every encoder output is accepted by the corresponding decoder
-	return "ok " + hx(first) + " redec=" + firstWord(opDec(kind, first))
+	return "ok " + hx(first) + " redec=" + firstWord(opDec(kind, first)) + ro
 }
 
 func firstWord(s string) string {
@@ -594,6 +619,21 @@ func mkParent(kind, ptr, src string) (any, error) {
 		}
 		return *c, nil
 	}
+	// kind "bad": values that are not countersignature targets (RFC 9338 names tagged COSE_Sign1,
+	// COSE_Sign, COSE_Signature and countersignatures; the library documents exactly those types)
+	switch ptr {
+	case "u", "up":
+		u := &cose.UntaggedSign1Message{}
+		_ = u.UnmarshalCBOR(nestedMsg[1:])
+		if ptr == "up" {
+			return u, nil
+		}
+		return *u, nil
+	case "hp":
+		return &cose.Headers{}, nil
+	case "b":
+		return []byte{0x84, 0x40, 0xa0, 0x40, 0x40}, nil
+	}
 	return struct{ X int }{1}, nil
 }
 
@@ -636,6 +676,9 @@ func opCS(a []string) string {
 	if form == "abbr" {
 		sig, err := cose.Countersign0(rand.Reader, signer, parent, ext)
 		sb.WriteString("sign=" + errClass(err) + " sig=" + dumpOptBytes(sig) + " tbs=" + hexList(log.tbs))
+		if err != nil && sig != nil {
+			sb.WriteString(" bytes-with-error")
+		}
 		if err == nil {
 			verr := cose.VerifyCountersign0(verifier, parent, ext, sig)
 			sb.WriteString(" ver=" + errClass(verr) + " vtbs=" + hexList(vlog.tbs))
@@ -729,7 +772,7 @@ func opHEV(a []string) string {
 		}
 		return "ver=" + plainErr(err)
 	}
-	return "ver=ok " + dumpSign1(m)
+	return "ver=ok " + dumpSign1(m) + " vtbs=" + hexList(vlog.tbs)
 }
 
 // hacc PMAP TYP CLAIMS : accessors and setters of ProtectedHeader
